@@ -240,6 +240,11 @@ class BADS:
                 high=self.plausible_upper_bounds,
                 size=(1, self.D),
             )
+            # A random start never lies on a hard bound (plausible box touching it)
+            self.x0 = np.minimum(
+                np.maximum(self.x0, np.nextafter(self.lower_bounds, np.inf)),
+                np.nextafter(self.upper_bounds, -np.inf),
+            )
             self.logger.log(
                 25,
                 "Initial starting point is invalid or not provided."
